@@ -305,6 +305,148 @@ def h_state_estimator_U():
         S.check('U:state_estimator:states-of-zero-weight-are-not-in-the-support', S.truth(len(d) == 0))
 
 
+def h_predictive_U():
+    """PartiallyObservableMDP.predictive_observation_dist for a belief / next-state supports / observation supports of UNBOUNDED size (three nested cut loops):
+    the accumulated weight of an arbitrary observation J is W(J) = sum_i sum_j sum_{l: obs_l = J} b_i * T_ij * O_jl, and the result maps J to W(J) exactly when W(J) > 0.
+    The normalisation assert is taken as given (total == 1: follows from normalised inputs, proved for the bounded family in tier B)."""
+    import z3, os
+    from symrun.absx import Atom, AbsMap, AbsValues, rsumN, fresh_atom, Opaque
+    from symrun.cut import cut, CutSpec
+    from symrun.patch import patched
+    from symrun.driver import ROOT
+    I, Rl = z3.IntSort(), z3.RealSort()
+    bkey, bval = z3.Function('bkey', I, I), z3.Function('bval', I, Rl)
+    nkey, nval, nn = z3.Function('nkey', I, I, I), z3.Function('nval', I, I, Rl), z3.Function('nn', I, I)
+    okey, oval, no = z3.Function('okey', I, I, I), z3.Function('oval', I, I, Rl), z3.Function('no', I, I)          # indexed by (next state, position)
+    nb = z3.Int('nb')
+    S.cur().inputs['nb'] = nb
+    S.assume(S.SymBool(nb >= 0))
+    J, a = fresh_atom('J'), fresh_atom('a')
+    ns_of = lambda i, j: nkey(bkey(i), j)
+    L3 = rsumN('L3', 3, lambda l, i, j, k: z3.If(okey(ns_of(i, j), l) == k, bval(i) * nval(bkey(i), j) * oval(ns_of(i, j), l), z3.RealVal(0)))
+    L2 = rsumN('L2', 2, lambda j, i, k: L3(no(ns_of(i, j)), i, j, k))
+    L1 = rsumN('L1', 1, lambda i, k: L2(nn(bkey(i)), i, k))
+
+    class NDist:
+        def __init__(self, s): self.s = s
+        def items(self): return Opaque('next-state items', owner=self.s)
+
+    class ODist:
+        def __init__(self, ns): self.ns = ns
+        def items(self): return Opaque('observation items', owner=self.ns)
+
+    class Pomdp(pp.PartiallyObservableMDP):
+        discount_rate = 1.0
+        def next_state_dist(self, s, act):
+            if act is not a:
+                raise S.Unsupported('unexpected action')
+            return NDist(s)
+        def observation_dist(self, act, ns):
+            if act is not a:
+                raise S.Unsupported('unexpected action')
+            return ODist(ns)
+        def initial_state_dist(self): raise S.Unsupported('not used')
+        def actions(self, s): raise S.Unsupported('not used')
+        def reward(self, s, a_, ns): raise S.Unsupported('not used')
+        def is_absorbing(self, s): raise S.Unsupported('not used')
+
+    class B:
+        def items(self): return Opaque('belief items', owner='belief')
+    g = {0: {}, 1: {}, 2: {}}
+    back = {0: False, 1: False, 2: False}
+
+    def gi(name):
+        k = z3.Int(name)
+        S.cur().inputs[name] = k
+        S.assume(S.SymBool(k >= 0))
+        return k
+
+    def total(level):
+        """value of the accumulator at J when control is at the head of loop `level` (ghost counters of the enclosing loops fixed)"""
+        t = L1(g[0]['k'], J.e)
+        if level >= 1:
+            t = t + L2(g[1]['k'], g[0]['k'], J.e)
+        if level >= 2:
+            t = t + L3(g[2]['k'], g[0]['k'], g[1]['k'], J.e)
+        return t
+
+    def mk_inv(level):
+        def inv(L):
+            m = L['o_dist']
+            if 'k' not in g[level]:           # first arrival at this loop on this path: enclosing heads' state, nothing of this loop done
+                return S.eq(m[J], 0) if level == 0 else S.eq(m[J], S.SymReal(total(level - 1)))
+            if back[level]:
+                # one more completed iteration of this loop
+                sub = dict(g[level])
+                g[level]['k'] = g[level]['k'] + 1
+                try:
+                    return S.eq(m[J], S.SymReal(total(level)))
+                finally:
+                    g[level].update(sub)
+            return S.eq(m[J], S.SymReal(total(level)))
+        return inv
+
+    def mk_havoc(level, names):
+        def havoc(L):
+            g[level]['k'] = gi('ghost_%d' % level)
+            d = {n: None for n in names}
+            d['o_dist'] = AbsMap(name='acc%d' % level, focus=J)
+            return d
+        return havoc
+
+    def element0(L, it):
+        S.assume(S.SymBool(g[0]['k'] < nb))
+        return (Atom(bkey(g[0]['k'])), S.SymReal(bval(g[0]['k'])))
+
+    def element1(L, it):
+        S.assume(S.SymBool(g[1]['k'] < nn(bkey(g[0]['k']))))
+        return (Atom(ns_of(g[0]['k'], g[1]['k'])), S.SymReal(nval(bkey(g[0]['k']), g[1]['k'])))
+
+    def element2(L, it):
+        S.assume(S.SymBool(g[2]['k'] < no(ns_of(g[0]['k'], g[1]['k']))))
+        back[2] = True
+        nsx = ns_of(g[0]['k'], g[1]['k'])
+        return (Atom(okey(nsx, g[2]['k'])), S.SymReal(oval(nsx, g[2]['k'])))
+
+    def ex2(L):
+        back[1] = True                     # inner loop finished: the enclosing body reaches ITS back edge next
+        return S.SymBool(g[2]['k'] == no(ns_of(g[0]['k'], g[1]['k'])))
+
+    def ex1(L):
+        back[0] = True
+        return S.SymBool(g[1]['k'] == nn(bkey(g[0]['k'])))
+    specs = {
+        0: CutSpec(inv=mk_inv(0), havoc=mk_havoc(0, ['s', 's_prob', 'ns', 'ns_prob', 'o', 'o_prob']), element=element0, exhausted=lambda L: S.SymBool(g[0]['k'] == nb),
+                   iterable_ok=lambda L, v: isinstance(v, Opaque) and v.owner == 'belief'),
+        1: CutSpec(inv=mk_inv(1), havoc=mk_havoc(1, ['ns', 'ns_prob', 'o', 'o_prob']), element=element1, exhausted=ex1,
+                   iterable_ok=lambda L, v: isinstance(v, Opaque) and v.owner is L['s']),
+        2: CutSpec(inv=mk_inv(2), havoc=mk_havoc(2, ['o', 'o_prob']), element=element2, exhausted=ex2,
+                   iterable_ok=lambda L, v: isinstance(v, Opaque) and v.owner is L['ns']),
+    }
+    fcut, text, info = cut(pp.PartiallyObservableMDP.predictive_observation_dist, specs, dump_dir=os.path.join(ROOT, 'evidence', 'extracted'))
+
+    def symsum(x, *rest):
+        if isinstance(x, AbsValues):
+            return S.SymReal(z3.RealVal(1))           # normalised inputs: the total predictive mass is 1 (assumption, see docstring)
+        return sum(x, *rest)
+
+    class DD:
+        def __init__(self, d): self.d = d
+
+    class NPs:
+        @staticmethod
+        def isclose(x, y): return bool(S.eq(x, y).exact) if S.symbolic() else abs(x - y) < 1e-8
+    with patched((pp, dict(defaultdict=lambda f: AbsMap(default=0, focus=J), sum=symsum, DictDistribution=DD, np=NPs))):
+        res = fcut(Pomdp(), B(), a)
+    W = S.SymReal(L1(nb, J.e))
+    d = res.d
+    if bool(S.SymBool(W.e > 0)):
+        S.check('U:predictive_observation_dist:probability-of-an-arbitrary-observation-is-its-accumulated-weight', S.And(
+            [S.truth(len(d) == 1 and next(iter(d)) is J)] + ([S.eq(d[J], W)] if len(d) == 1 else [])))
+    else:
+        S.check('U:predictive_observation_dist:observations-of-zero-weight-are-not-in-the-support', S.truth(len(d) == 0))
+
+
 def rt_random(seed, n):
     rnd = _random.Random(seed)
     out = []
@@ -344,6 +486,7 @@ def tasks(tier, seed):
                     T.append(Task('bayes/all-symbolic/' + nm, h_bayes, (sk, 'sym', sup, 0, 'sym'), tier='B', vc_timeout_ms=20000,
                                   note='every probability symbolic'))
     T.append(Task('U/state_estimator/abstract-belief-and-model', h_state_estimator_U, (), tier='U', note='both loops cut; unbounded supports', vc_timeout_ms=30000))
+    T.append(Task('U/predictive_observation_dist/abstract-belief-and-model', h_predictive_U, (), tier='U', note='three nested loops cut; unbounded supports', vc_timeout_ms=30000))
     T.append(Task('rt/random', rt_random, (seed, 20 if tier == 'quick' else 200), tier='R', kind='rt'))
     return T
 
@@ -369,4 +512,16 @@ SENTINELS = globals().get('SENTINELS', []) + [
              "return DictDistribution({ns: p/tot for ns, p in ns_dist.items()})", ['U/state_estimator/abstract-belief-and-model']),
     Sentinel('U:state_estimator-skips-the-first-successor-of-every-state', 'msdm.core.pomdp.pomdp', "            for ns, ns_prob in self.next_state_dist(s, a).items():\n                o_prob = self.observation_dist(a, ns).prob(o)",
              "            for ns, ns_prob in list(self.next_state_dist(s, a).items())[1:]:\n                o_prob = self.observation_dist(a, ns).prob(o)", ['U/state_estimator/abstract-belief-and-model']),
+]
+
+
+SENTINELS = SENTINELS + [
+    Sentinel('U:predictive-forgets-the-transition-probability', 'msdm.core.pomdp.pomdp', "                    o_dist[o] += s_prob*ns_prob*o_prob", "                    o_dist[o] += s_prob*o_prob",
+             ['U/predictive_observation_dist/abstract-belief-and-model']),
+    Sentinel('U:predictive-overwrites-instead-of-accumulating', 'msdm.core.pomdp.pomdp', "                    o_dist[o] += s_prob*ns_prob*o_prob", "                    o_dist[o] = s_prob*ns_prob*o_prob",
+             ['U/predictive_observation_dist/abstract-belief-and-model']),
+    Sentinel('U:predictive-observes-the-previous-state', 'msdm.core.pomdp.pomdp', "                for o, o_prob in self.observation_dist(a, ns).items():", "                for o, o_prob in self.observation_dist(a, s).items():",
+             ['U/predictive_observation_dist/abstract-belief-and-model']),
+    Sentinel('U:predictive-keeps-zero-weight-observations', 'msdm.core.pomdp.pomdp', "return DictDistribution({o: p for o, p in o_dist.items() if p > 0.0})", "return DictDistribution({o: p for o, p in o_dist.items()})",
+             ['U/predictive_observation_dist/abstract-belief-and-model']),
 ]
